@@ -207,7 +207,7 @@ class Signal(object):
             range to smooth over
         """
         if smooth_fa_freqs is not None:
-            self._smooth_fa_freqs = smooth_fa_freqs
+            self.smooth_fa_freqs = smooth_fa_freqs  # through the setter: float array of its own, cached spectrum dropped
         self._smooth_fa_spectrum = calc_smooth_fa_spectrum(self.fa_freqs,
                                                                self.fa_spectrum, self.smooth_fa_freqs, band=band)
         self._cached_smooth_fa = True
